@@ -243,7 +243,23 @@ def c04(tier):
     return rep
 
 
+def c18(tier):
+    from . import props_c18
+    rep = Report('C18', tier,
+                 'Absence of shared mutable state and of nondeterminism sources, decided over every library unit (including the '
+                 'generated scanner): inventory of static-storage objects with clang\'s ExprMutationAnalyzer verdict per reference, no '
+                 'mutable static locals / thread_local, classification of every external callee (allow / deny / unknown = exit 2), no '
+                 'pointer-keyed containers or address comparisons, reentrant scanner with per-call scanner objects, programs owned by '
+                 'value, state objects local to one call. No shared mutable state and no nondeterministic source implies equal outputs '
+                 'for equal inputs and race freedom of concurrent calls.',
+                 assumptions=['malloc and libstdc++ are thread-safe', 'std::hash and container iteration are functions of the insertion history'],
+                 trusted=TRUSTED + ['clang ExprMutationAnalyzer'])
+    props_c18.c18(rep, tier)
+    return rep
+
+
 CHECKS = {
+    'C18': c18,
     'C04': c04,
     'C14': c14, 'C15': c15,
     'C09': c09, 'C10': c10, 'C11': c11, 'C12': c12,
